@@ -216,6 +216,7 @@ def exponent_alphabet(ctx):
     readers = []
 
     regexes_seen = []
+    float_calls = []        # (function node, call) of every float(text)
 
     def float_sites(fnode, module, depth=0, cls=None):
         """(converter names, preprocessing calls) of every text->float
@@ -228,9 +229,12 @@ def exponent_alphabet(ctx):
             d = dotted(c.func)
             if d in ('float', 'int'):
                 conv.add(d)
+                if d == 'float' and c.args and not any(
+                        c is c0 for _, c0, _m in float_calls):
+                    float_calls.append((fnode, c, module))
             elif isinstance(c.func, ast.Attribute) and \
                     c.func.attr in ('replace', 'translate', 'lower',
-                                    'upper'):
+                                    'upper', 'partition', 'split'):
                 pre.append(unparse(c)[:80])
             elif isinstance(c.func, ast.Attribute) and depth < 3 and \
                     dotted(c.func.value) == 'self' and cls is not None and \
@@ -268,6 +272,66 @@ def exponent_alphabet(ctx):
             raise AnalysisError(f'anchor vanished: no text->float '
                                 f'conversion found in {qn} or its helpers')
         readers.append((f, qn, conv, pre, rx))
+    # every single float(text) conversion the readers reach converts the
+    # whole text after the marker rewrite (one function converting some
+    # types through the helper and another type with a bare float() still
+    # rejects the D form for that type; float() of a part of the text
+    # combined arithmetically is not the correctly rounded value)
+    rule_s = 'C16.each-text-to-float-conversion-reads-the-written-form'
+    ctx.rule(rule_s, 'each float(<text>) call reachable from READ and INPUT '
+             'takes the text with the non-E exponent markers of '
+             'format_number rewritten (a .replace of the marker in the '
+             'argument or in the assignment feeding it), and its result is '
+             'not combined with * or ** into the value')
+    non_e = sorted(m for m in markers if m.lower() != 'e')
+    seen_sites = set()
+    for fnode, c, fmod in float_calls:
+        arg = c.args[0]
+        srcs = [arg]
+        if isinstance(arg, ast.Name):
+            srcs += [a.value for a in ast.walk(fnode)
+                     if isinstance(a, ast.Assign) and any(
+                         isinstance(t, ast.Name) and t.id == arg.id
+                         for t in a.targets)]
+        rewrites = {const(k.args[0]) for e in srcs for k in ast.walk(e)
+                    if isinstance(k, ast.Call) and
+                    isinstance(k.func, ast.Attribute) and
+                    k.func.attr == 'replace' and k.args}
+        # a function that splits the text at the marker handles the marked
+        # form on its own path
+        rewrites |= {const(k.args[0]) for k in ast.walk(fnode)
+                     if isinstance(k, ast.Call) and
+                     isinstance(k.func, ast.Attribute) and
+                     k.func.attr in ('partition', 'split', 'rpartition')
+                     and k.args}
+        missing = [m for m in non_e if m not in rewrites]
+        par = getattr(c, '_parent', None)
+        arith = isinstance(par, ast.BinOp) and isinstance(
+            par.op, (ast.Mult, ast.Pow, ast.Div))
+        fname = getattr(fnode, 'name', '?')
+        construct = f'{fmod.relpath}:{fname}:float({unparse(arg)[:30]})'
+        if construct in seen_sites:
+            continue
+        seen_sites.add(construct)
+        ctx.instance(rule_s, construct, sample={'rewrites': sorted(
+            r for r in rewrites if isinstance(r, str)),
+            'combined_arithmetically': arith})
+        if arith:
+            ctx.finding(rule_s, construct + ':arithmetic',
+                        f'{fname} converts a part of the text with float() '
+                        f'and combines it arithmetically '
+                        f'(`{unparse(par)[:60]}`): the result is not the '
+                        f'correctly rounded value of the text, so numbers '
+                        f'written by PRINT/STR$ read back as neighbours',
+                        fmod.relpath, c.lineno)
+        elif missing:
+            ctx.finding(rule_s, construct,
+                        f'{fname} converts text with a bare '
+                        f'float({unparse(arg)[:30]}) without rewriting the '
+                        f'exponent marker(s) {missing} format_number '
+                        f'writes: that conversion rejects the printed form',
+                        fmod.relpath, c.lineno)
+    ctx.floor('text->float conversion sites', len(seen_sites), 1)
     for mk in sorted(markers):
         construct = f'{fn.file}:format_number:marker[{mk}]'
         hits = [h for p in parsed_all for h in _class_accepts(list(p), mk)
